@@ -26,8 +26,14 @@ def v_queens(sol, spec):
 
 def v_latin(sol, spec, colors=None):
     n = spec["n"]
-    colors = colors or list(range(n))
+    colors = colors or spec.get("colors") or list(range(n))
     m = [sol[i * n : (i + 1) * n] for i in range(n)]
+    g = spec.get("givens")
+    if g:
+        for i in range(n):
+            for j in range(n):
+                if g[i][j] in colors and m[i][j] != g[i][j]:
+                    return f"given at ({i},{j}) not respected"
     for i in range(n):
         if sorted(m[i]) != sorted(colors):
             return f"row {i} is not a permutation of the colors"
@@ -334,6 +340,46 @@ def brute_count(spec):
             cost = sum(c[a][b] for a, b in zip(tour, tour[1:]))
             best = cost if best is None else min(best, cost)
         return best
+    if name == "qg5":  # idempotent latin squares satisfying ((b*a)*b)*b = a, from the definition
+        n = spec["n"]
+        c = 0
+        perms = list(itertools.permutations(range(n)))
+
+        def rec5(rows):
+            nonlocal c
+            i = len(rows)
+            if i == n:
+                op = lambda a, b: rows[a][b]
+                if all(op(op(op(b, a), b), b) == a for a in range(n) for b in range(n)):
+                    c += 1
+                return
+            for p in perms:
+                if p[i] == i and all(p[j] != r[j] for r in rows for j in range(n)):
+                    rec5(rows + [p])
+
+        rec5([])
+        return c
+    if name == "latin":  # latin squares over the given colors respecting the givens
+        n = spec["n"]
+        colors = spec.get("colors") or list(range(n))
+        givens = spec.get("givens")
+        c = 0
+        perms = list(itertools.permutations(colors))
+
+        def recl(rows):
+            nonlocal c
+            i = len(rows)
+            if i == n:
+                c += 1
+                return
+            for p in perms:
+                if givens and any(givens[i][j] in colors and givens[i][j] != p[j] for j in range(n)):
+                    continue
+                if all(p[j] != r[j] for r in rows for j in range(n)):
+                    recl(rows + [p])
+
+        recl([])
+        return c
     if name == "quasigroup":  # idempotent latin squares, from the definition
         n = spec["n"]
         c = 0
@@ -369,7 +415,7 @@ def build(spec):
     if name == "latin":
         from nucs.problems.latin_square_problem import LatinSquareProblem
 
-        return LatinSquareProblem(list(range(spec["n"])))
+        return LatinSquareProblem(spec.get("colors") or list(range(spec["n"])), spec.get("givens"))
     if name == "latin_rc":
         from nucs.problems.latin_square_problem import LatinSquareRCProblem
 
